@@ -433,6 +433,18 @@ func TranslatePathsD(paths PathsD, dx, dy float64) PathsD {
 }
 
 func TrimCollinear64(path Path64, isOpen bool) Path64 {
+	// removing a vertex (a spike tip, a duplicate) of a closed path can make its
+	// neighbours collinear, so the pass is repeated until nothing more is removed
+	for {
+		result := trimCollinearPass(path, isOpen)
+		if isOpen || len(result) == len(path) || len(result) == 0 {
+			return result
+		}
+		path = result
+	}
+}
+
+func trimCollinearPass(path Path64, isOpen bool) Path64 {
 	l := len(path)
 	i := 0
 
